@@ -40,7 +40,12 @@ def one_case(chk, cid, method, cfg, rows, cols, rng, mode, dens, inv):
         d[rng.rand(rows, cols) < 0.2] = np.float32(1.25)      # ties
     vm = np.where(rng.rand(rows, cols) < dens, rng.choice([1, 2, 64, 128, 256, 512, 66], size=(rows, cols)), rng.choice([0, 0, 4, 8, 16, 32], size=(rows, cols)))
     invalid = (vm & 0b1111000011) != 0
-    d[invalid] = inv
+    if rng.rand() < 0.35 and (~invalid).any() and np.isfinite(d[~invalid]).any():
+        # occluded / mismatched pixels KEEP a finite disparity (cross-checking leaves it in place): here just above every valid
+        # one, close enough for the range kernel of the bilateral filter to weigh it - it must not enter any mean or median
+        d[invalid] = np.float32(np.nanmax(d[~invalid]) + 1.5)
+    else:
+        d[invalid] = inv
     conf = (["confidence_from_ambiguity", "confidence_from_interval_bounds_inf", "confidence_from_interval_bounds_sup"],
             np.stack([rng.rand(rows, cols), d - rng.randint(0, 3, size=(rows, cols)), d + rng.randint(0, 3, size=(rows, cols))], axis=2))
     if method == "median_for_intervals":
